@@ -101,7 +101,7 @@ SCENARIOS['topology'] = dict(
     allocs={'x': _al(), 'y': _al(traits=['t1']), 'z': _al(label='pB')},
     aprofiles=[_ap([1, 1]), _ap([1, 1], traits=['t2']), _ap([1, 1], alloc='y'),
                _ap([2, 2], traits=['t1']), _ap([1, 1], alloc='z', lease=2),
-               _ap([1, 1], limits={'rack': 1, 'pod': 2}), _ap([1, 1], group='g1', prio=3),
+               _ap([1, 1], aff='lim', limits={'rack': 1, 'pod': 2}), _ap([1, 1], group='g1', prio=3),
                _ap([2, 1], alloc='z', lease=4)],
     groups={'g1': 1}, apps=['a1', 'a2', 'a3', 'a4', 'a5', 'a6'])
 
